@@ -7,5 +7,7 @@ CONSTANTS
   GuardFix = TRUE
   CleanupFix = TRUE
   SerialReg = TRUE
+  MaxBatch = 0
+  RetryEnds = TRUE
 INVARIANTS AllGone NoCrash OwnCleanupOnly NewestSender NewestReceiver
 CHECK_DEADLOCK FALSE
